@@ -101,7 +101,7 @@ func c18objects(seed int64, keys *gen.KeyRing, n int) []*c18object {
 			return h
 		}
 		decoded := (i/21)%2 == 1
-		switch (i / 42) % 6 {
+		switch (i / 42) % 7 {
 		case 0: // Sign1 / Untagged
 			m := &cose.Sign1Message{Headers: mkHeaders(k.Alg), Payload: payload}
 			if err := m.Sign(gen.Entropy, ext, k.Signer); err != nil {
@@ -295,6 +295,62 @@ func c18objects(seed int64, keys *gen.KeyRing, n int) []*c18object {
 				}},
 			}
 			out = append(out, o)
+		case 6: // a deep chain of countersignatures: each one countersigns the previous one
+			parent := &cose.Sign1Message{Headers: mkHeaders(k.Alg), Payload: payload}
+			if parent.Sign(gen.Entropy, nil, k.Signer) != nil {
+				continue
+			}
+			depth := 6 + r.Intn(5)
+			chain := make([]*cose.Countersignature, depth)
+			var target any = parent
+			okChain := true
+			for d := 0; d < depth; d++ {
+				kk := keys.Keys[(i+d)%4]
+				cs := &cose.Countersignature{Headers: cose.Headers{Protected: cose.ProtectedHeader{int64(1): kk.Alg}, Unprotected: cose.UnprotectedHeader{}}}
+				if cs.Sign(gen.Entropy, kk.Signer, target, nil) != nil {
+					okChain = false
+					break
+				}
+				chain[d] = cs
+				target = cs
+			}
+			if !okChain {
+				continue
+			}
+			for d := depth - 1; d > 0; d-- {
+				chain[d-1].Headers.Unprotected[int64(11)] = chain[d]
+			}
+			parent.Headers.Unprotected[int64(11)] = chain[0]
+			if decoded {
+				b, err := parent.MarshalCBOR()
+				if err != nil {
+					continue
+				}
+				d := &cose.Sign1Message{}
+				if d.UnmarshalCBOR(b) != nil {
+					continue
+				}
+				parent = d
+				cur, _ := d.Headers.Unprotected[int64(11)].(*cose.Countersignature)
+				for x := 0; x < depth && cur != nil; x++ {
+					chain[x] = cur
+					cur, _ = cur.Headers.Unprotected[int64(11)].(*cose.Countersignature)
+				}
+			}
+			o := &c18object{name: fmt.Sprintf("chain-%d", i), kind: fmt.Sprintf("countersignature-chain-depth-%d", depth), alg: k.Name, dec: decoded}
+			o.state = func() []any { return []any{parent} }
+			last := chain[depth-1]
+			lastKey := keys.Keys[(i+depth-1)%4]
+			mid := chain[depth/2]
+			o.ops = []c18op{
+				{"parent.MarshalCBOR(deep)", func() string { return resBytes(parent.MarshalCBOR()) }},
+				{"parent.Verify", func() string { return resErr(parent.Verify(nil, k.Verifier)) }},
+				{"chain[0].MarshalCBOR(deep)", func() string { return resBytes(chain[0].MarshalCBOR()) }},
+				{"chain[mid].MarshalCBOR", func() string { return resBytes(mid.MarshalCBOR()) }},
+				{"chain[last].Verify(over previous)", func() string { return resErr(last.Verify(lastKey.Verifier, chain[depth-2], nil)) }},
+				{"chain[0].Verify(over parent)", func() string { return resErr(chain[0].Verify(keys.Keys[i%4].Verifier, parent, nil)) }},
+			}
+			out = append(out, o)
 		default: // stand-alone Signature
 			body := []byte{0x40}
 			s := &cose.Signature{Headers: mkHeaders(k.Alg)}
@@ -336,7 +392,7 @@ type c18report struct {
 
 func runC18(c *Ctx) {
 	rec := c.Rec
-	nObj := c.N(252, 1260)
+	nObj := c.N(294, 1470)
 	objs := c18objects(c.Seed, c.Keys, nObj)
 	rec.Extra("shared_objects", len(objs))
 	rec.MaxSamples = 12
